@@ -149,6 +149,21 @@ fn aset_seed() -> Vec<u8> {
     a.serialize().expect("aset seed")
 }
 
+/// every clip name present, one set with all 256 slots named, one with none, one sparse
+fn aset_full_seed() -> Vec<u8> {
+    let mut a = ASetFile::new(None);
+    a.anim_clip_table = (0..257).map(|i| Some(format!("clip{}", i))).collect();
+    let mut full: Vec<Option<String>> = (0..257).map(|i| Some(format!("n{}", i))).collect();
+    full[0] = Some("Full".into());
+    a.sets.push(full);
+    a.sets.push(vec![None; 257]);
+    let mut sparse: Vec<Option<String>> = vec![None; 257];
+    sparse[32] = Some("".into());
+    sparse[255] = Some("ﾂｱ".into());
+    a.sets.push(sparse);
+    a.serialize().expect("aset full seed")
+}
+
 fn asset_seed() -> Vec<u8> {
     let mut b = AssetBinary::new();
     b.flags = 0x0102_0304;
@@ -229,6 +244,13 @@ fn seeds() -> &'static Vec<Seed> {
         add("gen:text-uni-le", text_seed(TextArchiveFormat::Unicode, Endian::Little), vec![Entry::TextUniLE, Entry::TextSjisLE, Entry::BinLE]);
         add("gen:text-uni-be", text_seed(TextArchiveFormat::Unicode, Endian::Big), vec![Entry::TextUniBE, Entry::BinBE]);
         add("gen:aset", aset_seed(), vec![Entry::Aset, Entry::BinLE]);
+        add("gen:aset-full", aset_full_seed(), vec![Entry::Aset]);
+        add("gen:aset-empty", ASetFile::new(Some("".into())).serialize().expect("aset empty"), vec![Entry::Aset, Entry::Asset]);
+        add("gen:asset-empty", AssetBinary::new().serialize().expect("asset empty"), vec![Entry::Asset, Entry::Aset]);
+        let dup: Vec<(String, Vec<u8>)> = vec![("same".into(), vec![1, 2, 3]), ("same".into(), vec![4]), ("other".into(), vec![])];
+        add("gen:pack-duplicate-names", ref_pack::build_pack(&dup, &pl), vec![Entry::Pack]);
+        add("gen:text-empty-sjis", TextArchive::new(TextArchiveFormat::ShiftJIS, Endian::Big).serialize().unwrap_or_default(), vec![Entry::TextSjisBE, Entry::BinBE]);
+        add("gen:text-empty-uni", TextArchive::new(TextArchiveFormat::Unicode, Endian::Little).serialize().unwrap_or_default(), vec![Entry::TextUniLE, Entry::BinLE]);
         add("gen:asset", asset_seed(), vec![Entry::Asset, Entry::BinLE, Entry::Aset, Entry::TextSjisLE]);
         v
     })
@@ -261,6 +283,9 @@ struct Plan {
     byte_offsets: Vec<usize>,
     values: Vec<u32>,
     truncations: Vec<usize>,
+    /// aligned offsets among which every ordered pair (src, dst) is tried: the word at src is
+    /// copied over the word at dst (two fields made to agree with each other)
+    copy_offsets: Vec<usize>,
 }
 
 fn plan(seed: &Seed, tier: Tier) -> Plan {
@@ -284,11 +309,12 @@ fn plan(seed: &Seed, tier: Tier) -> Plan {
     let word_offsets: Vec<usize> = (0..len.saturating_sub(3)).filter(|o| keep(*o)).collect();
     let byte_offsets: Vec<usize> = (0..len).filter(|o| keep(*o)).collect();
     let truncations: Vec<usize> = (0..len).filter(|o| !huge || *o < 0x60 || o % 61 == 0 || o + 64 > len || (*o >= tables && *o < tables + 16)).collect();
-    Plan { word_offsets, byte_offsets, values: b32(len, dsize), truncations }
+    let copy_offsets: Vec<usize> = if len <= 700 || tier == Tier::Thorough && len <= 1500 { (0..len / 4).map(|w| w * 4).collect() } else { (0..len / 4).map(|w| w * 4).filter(|o| *o < 0x30 || (*o >= tables && *o < tables + 64)).collect() };
+    Plan { word_offsets, byte_offsets, values: b32(len, dsize), truncations, copy_offsets }
 }
 
 fn plan_count(p: &Plan) -> u64 {
-    (p.word_offsets.len() * p.values.len() * 2 + p.byte_offsets.len() * BYTE_VALUES.len() + p.truncations.len() + APPENDS.len() + 1) as u64
+    (p.word_offsets.len() * p.values.len() * 2 + p.byte_offsets.len() * BYTE_VALUES.len() + p.truncations.len() + p.copy_offsets.len() * p.copy_offsets.len() + APPENDS.len() + 1) as u64
 }
 
 /// deviation index → (bytes, description)
@@ -324,6 +350,15 @@ fn deviate(seed: &Seed, p: &Plan, mut i: u64) -> (Vec<u8>, String) {
         return (b, format!("truncate@{}", at));
     }
     i -= p.truncations.len() as u64;
+    let nc = (p.copy_offsets.len() * p.copy_offsets.len()) as u64;
+    if i < nc {
+        let src = p.copy_offsets[(i / p.copy_offsets.len() as u64) as usize];
+        let dst = p.copy_offsets[(i % p.copy_offsets.len() as u64) as usize];
+        let w = [b[src], b[src + 1], b[src + 2], b[src + 3]];
+        b[dst..dst + 4].copy_from_slice(&w);
+        return (b, format!("copy word@{:#x} -> @{:#x}", src, dst));
+    }
+    i -= nc;
     let (n, v) = APPENDS[i as usize % APPENDS.len()];
     b.extend(std::iter::repeat(v).take(n));
     (b, format!("append {}x{:#x}", n, v))
